@@ -226,7 +226,7 @@ def prepare_parser_env(pkg):
     cdef = pkg.repo.classes[(REL_PARSER, CLS_TRANSFORMER)]
     from .userclass import UserClass
 
-    own_bases = [b for b in cdef.bases if (REL_PARSER, ast.unparse(b).split(".")[-1]) in pkg.repo.classes]
+    own_bases = [b for b in cdef.bases if (REL_PARSER, ast.unparse(b).split(".")[-1]) in pkg.repo.classes or pkg.repo.class_of_expr(REL_PARSER, b) is not None]
     if not ((own_bases or cdef.keywords) and isinstance(env.get(CLS_TRANSFORMER), UserClass)):
         # (a transformer spread over base classes of the module / registered through class keywords stays the class the
         # evaluator built from the whole hierarchy)
